@@ -35,6 +35,12 @@ type FaultPlan struct {
 	// OnStep, when set, is called with the step kind before it runs
 	// (used to interleave a reader between a writer's statements).
 	OnStep func(kind string, n int64)
+	// DDL, when set before a connection is opened, makes every CREATE TABLE / INDEX /
+	// TRIGGER / VIEW statement a step of its own (kind "ddl", seen through SQLite's
+	// authorizer callback when the statement is compiled, i.e. before it runs): the
+	// schema script is one driver-level statement, and this is how a crash in the
+	// middle of it is placed.
+	DDL bool
 }
 
 var Plan = &FaultPlan{}
@@ -109,8 +115,10 @@ func (d *faultDriver) Open(name string) (driver.Conn, error) {
 type faultConn struct{ c *sqlite3.SQLiteConn }
 
 func (fc *faultConn) Prepare(query string) (driver.Stmt, error) { return fc.c.Prepare(query) }
-func (fc *faultConn) Close() error                             { return fc.c.Close() }
-func (fc *faultConn) Begin() (driver.Tx, error)                { return fc.BeginTx(context.Background(), driver.TxOptions{}) }
+func (fc *faultConn) Close() error                              { return fc.c.Close() }
+func (fc *faultConn) Begin() (driver.Tx, error) {
+	return fc.BeginTx(context.Background(), driver.TxOptions{})
+}
 
 func (fc *faultConn) BeginTx(ctx context.Context, opts driver.TxOptions) (driver.Tx, error) {
 	err, post := Plan.step("begin")
@@ -174,5 +182,20 @@ func (t *faultTx) Commit() error {
 func (t *faultTx) Rollback() error { return t.tx.Rollback() }
 
 func init() {
-	sql.Register(FaultDriverName, &faultDriver{&sqlite3.SQLiteDriver{}})
+	inner := &sqlite3.SQLiteDriver{ConnectHook: func(c *sqlite3.SQLiteConn) error {
+		if !Plan.DDL {
+			return nil
+		}
+		c.RegisterAuthorizer(func(op int, a1, a2, a3 string) int {
+			switch op {
+			case sqlite3.SQLITE_CREATE_TABLE, sqlite3.SQLITE_CREATE_INDEX, sqlite3.SQLITE_CREATE_TRIGGER, sqlite3.SQLITE_CREATE_VIEW:
+				if _, post := Plan.step("ddl"); post != nil {
+					post()
+				}
+			}
+			return sqlite3.SQLITE_OK
+		})
+		return nil
+	}}
+	sql.Register(FaultDriverName, &faultDriver{inner})
 }
